@@ -48,7 +48,7 @@ def _classify(c):
 CFG = dict(
     imports=["From Verif.C17 Require Import Model Spec."],
     checker="check_case",
-    n=dict(quick=100, thorough=5000),
+    n=dict(quick=100, thorough=1200),
     shard=20,
     classify=_classify,
     rule="histories of 10-35 operations over 4 interfaces (cali1, cali2, eth0, vxlan.calico + the no-interface pseudo "
